@@ -159,12 +159,12 @@ class Vertex(base.BaseObject):
             return self._QA_NB_INVALID
 
         if args in self.__qa_nb_cache:
-            self._CACHE_STATS[self.uid][0] += 1
+            self._CACHE_STATS.setdefault(self.uid, [0, 0, 0, 0])[0] += 1
 
             # hand out a copy: the caller owns what neighbors() returns
             return list(self.__qa_nb_cache[args])
 
-        self._CACHE_STATS[self.uid][1] += 1
+        self._CACHE_STATS.setdefault(self.uid, [0, 0, 0, 0])[1] += 1
         return self._QA_NB_INVALID
 
     def _qa_neighbors_invalidate(self):
@@ -183,7 +183,7 @@ class Vertex(base.BaseObject):
         self.__qa_nb_cache = {}
         if not self.NEIGHBOR_CACHING:
             return
-        self._CACHE_STATS[self.uid][2] += 1
+        self._CACHE_STATS.setdefault(self.uid, [0, 0, 0, 0])[2] += 1
 
     def _qa_neighbors_insert(self, answer, *args):
         """
@@ -199,7 +199,7 @@ class Vertex(base.BaseObject):
         """
         if not self.NEIGHBOR_CACHING:
             return
-        self._CACHE_STATS[self.uid][3] += 1
+        self._CACHE_STATS.setdefault(self.uid, [0, 0, 0, 0])[3] += 1
         # keep our own copy: the caller goes on owning ``answer``
         self.__qa_nb_cache[args] = list(answer)
 
